@@ -133,7 +133,7 @@ of the API.
   of 32–40 wrappers (half of the time as a branch of a multi-cause node), a
   multi-cause node with 9–12 causes, a message longer than 4 KiB, the same error
   value as two causes of one node, a spine of 6–8 nested two-cause nodes; every
-  24th PRNG-driven case (12th in the thorough tier; a quarter as many in the
+  24th PRNG-driven case (240th in the thorough tier; a quarter as many in the
   monitors that evaluate `Is` over all pairs of layers), the five shapes in turn
   by case ordinal, so that each occurs in every run. Added while round 17 was
   under way; `H01-r17` and `H10-r17` (a depth bound of 32 in the encoder) are caught
